@@ -87,9 +87,11 @@ def r1(ctx: Ctx):
   ok_hit = False
   for ld in loads:
     v = ld.ast.targets[0].id
+    from mlmverif.core import plain_copies
+    vs = plain_copies(wf.node, v)
     r = g.reachable([ld], edge_ok=cfgm.only_normal)
     rr = [n for n in r if isinstance(n.ast, ast.Return)]
-    if rr and all(unparse(n.ast.value) == v for n in rr):
+    if rr and all(unparse(n.ast.value) in vs for n in rr):
       ok_hit = True
   if ok_hit:
     ctx.ok(rule, wf, 'hit returns the stored object', loads[0].ast)
@@ -1042,6 +1044,8 @@ from mlmverif.selfcheck import B, OK  # noqa: E402
 _L = 'chainables/lazy_fns.py'
 _F = 'utils/func_utils.py'
 VARIANTS = [
+    OK('cache-hit-through-a-local', 'chainables/lazy_fns.py',
+       "          result = lazy_obj_cache[x]\n", "          cached = lazy_obj_cache[x]\n          result = cached\n"),
     OK('made-value-through-a-local', 'chainables/lazy_fns.py',
        "    return maybe_lazy.result_()", "    made = maybe_lazy.result_()\n    return made"),
     OK('miss-stored-through-a-named-value', 'chainables/lazy_fns.py',
